@@ -71,14 +71,23 @@ Fixpoint lend (fuel : nat) (lo delta : Z) : bres :=
 
 (* float64 doubling from 0 with xdelta = 1: 1, 3, ..., 2^53 - 1, 2^54, ..., 2^1023, then overflow —
    computed with the rounding function of the model, compared with the closed form *)
+(* (proved by one VM conversion each; the proof terms stay small: eq_refl with a vm cast) *)
+Lemma go_rprobes : rprobes go_expand_fuel 0 1 = go_probes.
+Proof. vm_cast_no_check (@eq_refl (list Z) go_probes). Qed.
+Lemma go_rend : rend go_expand_fuel 0 1 = BInf false.
+Proof. vm_cast_no_check (@eq_refl bres (BInf false)). Qed.
+Lemma go_lprobes : lprobes go_expand_fuel 0 1 = go_probes_neg.
+Proof. vm_cast_no_check (@eq_refl (list Z) go_probes_neg). Qed.
+Lemma go_lend : lend go_expand_fuel 0 1 = BInf true.
+Proof. vm_cast_no_check (@eq_refl bres (BInf true)). Qed.
 Theorem go_probes_closed_form :
   rprobes go_expand_fuel 0 1 = go_probes /\ rend go_expand_fuel 0 1 = BInf false /\
   lprobes go_expand_fuel 0 1 = go_probes_neg /\ lend go_expand_fuel 0 1 = BInf true.
-Proof. vm_compute. repeat split; reflexivity. Qed.
+Proof. exact (conj go_rprobes (conj go_rend (conj go_lprobes go_lend))). Qed.
 
 Definition probe_closed (k : Z) : Z := if k <=? 53 then 2 ^ k - 1 else 2 ^ k.
 Theorem go_probes_values : go_probes = map (fun k => probe_closed (Z.of_nat k)) (seq 1 1023).
-Proof. vm_compute. reflexivity. Qed.
+Proof. vm_cast_no_check (@eq_refl (list Z) go_probes). Qed.
 
 (* strictly increasing, each step at most doubles (+2), nothing beyond the last probe *)
 Fixpoint chain_up (prev : Z) (ps : list Z) : bool :=
@@ -91,9 +100,17 @@ Fixpoint chain_down (prev : Z) (ps : list Z) : bool :=
   | [] => true
   | p :: r => (p <? prev) && (2 * prev - 2 <=? p) && (- go_last_probe <=? p) && chain_down p r
   end.
+Lemma go_probes_chain_1 : chain_up 0 go_probes = true.
+Proof. vm_cast_no_check (@eq_refl bool true). Qed.
+Lemma go_probes_chain_2 : chain_down 0 go_probes_neg = true.
+Proof. vm_cast_no_check (@eq_refl bool true). Qed.
+Lemma go_probes_chain_3 : existsb (Z.eqb go_last_probe) go_probes = true.
+Proof. vm_cast_no_check (@eq_refl bool true). Qed.
+Lemma go_probes_chain_4 : existsb (Z.eqb (- go_last_probe)) go_probes_neg = true.
+Proof. vm_cast_no_check (@eq_refl bool true). Qed.
 Lemma go_probes_chain : chain_up 0 go_probes = true /\ chain_down 0 go_probes_neg = true /\
   existsb (Z.eqb go_last_probe) go_probes = true /\ existsb (Z.eqb (- go_last_probe)) go_probes_neg = true.
-Proof. vm_compute. repeat split; reflexivity. Qed.
+Proof. exact (conj go_probes_chain_1 (conj go_probes_chain_2 (conj go_probes_chain_3 go_probes_chain_4))). Qed.
 
 Lemma chain_up_cons prev p r : chain_up prev (p :: r) = true ->
   prev < p /\ p <= 2 * prev + 2 /\ p <= go_last_probe /\ chain_up p r = true.
